@@ -59,7 +59,7 @@ class Run:
         self.add_mismatches(r["mismatches"], own)
         self.part(name or module, constants=constants or {}, tlc_states=g["states"], scenarios_exported=g["n"], scenarios_replayed=r["scenarios"],
                   steps=r["steps"], crashes=r["crashes"], tlc_wall_s=round(g["wall_s"], 1))
-        if r["scenarios"] + r["crashes"] < g["n"] and not r.get("truncated"):
+        if r["crashes"] == 0 and r["scenarios"] < g["n"]:
             raise MachineryError(f"{module}: {g['n']} scenarios exported but only {r['scenarios']} replayed")
         return g, r
 
@@ -121,14 +121,75 @@ def c20(run):
 # ======================================================================================================
 # codecs
 
+def _lzh_machine(run, jobs, replay=True):
+    """LzhMachine instances in parallel TLC processes: (NSym, MaxCount, kind, len).  With the real constants the exported outcome
+    (length, checksum, error) is replayed on the real decoder; scaled instances are model-level evidence for the capacity law."""
+    from concurrent.futures import ThreadPoolExecutor
+    inv = ("RootCounts", "CapacityOnlyAtLimit", "WindowCursor", "Export")
+
+    def one(job):
+        nsym, maxc, kind, n = job
+        return job, vlib.generate("LzhMachine", {"NSym": nsym, "MaxCount": maxc, "InputKind": '"%s"' % kind, "InputLen": n}, invariants=inv,
+                                  workers=1, small_heap=True, timeout=3400)
+    with ThreadPoolExecutor(max_workers=min(len(jobs), 8)) as ex:
+        res = list(ex.map(one, jobs))
+    merged = os.path.join(vlib.scratch(), "lzh_long_%d.ndjson" % len(run.parts))
+    with open(merged, "w") as f:
+        for job, g in res:
+            run.add_model(g)
+            rec = g["records"][0]["steps"][0]
+            run.part("LzhMachine %s[%d] MaxCount=%d" % (job[2], job[3], job[1]), codes=rec["codes"], out_len=rec["outLen"], capacity_error=rec["err"],
+                     tlc_states=g["states"], tlc_wall_s=round(g["wall_s"], 1))
+            if replay and job[1] == 65535:
+                f.write(json.dumps(g["records"][0]) + "\n")
+                run.sample(g["records"][0])
+    if replay:
+        r = vlib.run_scenarios(run.harness("scen"), merged, run.pid, shards=len(jobs))
+        run.traces += r["scenarios"]; run.steps += r["steps"]; run.add_mismatches(r["mismatches"])
+
+
 def c04(run):
     run.scen("MC_Lzh", {"NSym": 314, "MaxCount": 65535, "MaxToks": 3 if run.thorough else 2}, small_heap=True)
+    # longer raw inputs through the decoder state machine (length + checksum of the output)
+    _lzh_machine(run, [(314, 65535, "lcg", 1200), (314, 65535, "zero", 2500), (314, 65535, "ff", 2500), (314, 65535, "aa", 1500)])
+    # the capacity law on the model, for scaled counters: error exactly at code MaxCount - NSym + 1, whatever the input
+    _lzh_machine(run, [(314, 330, "lcg", 300), (314, 400, "zero", 300), (314, 400, "ff", 300), (314, 700, "aa", 800)], replay=False)
+    # ... and its instances at the real constants: runs of equal literals across the capacity
+    run.scen("MC_LzhRun", {"NSym": 314, "MaxCount": 65535})
+    if run.thorough:
+        # inputs that drive the real decoder across its capacity, decoded code by code by the specification (minutes of TLC time)
+        _lzh_machine(run, [(314, 65535, "zero", 120000), (314, 65535, "ff", 140000), (314, 65535, "lcg", 130000), (314, 65535, "aa", 130000)])
 
 
 def c15(run):
     for n, d in ((2, 10), (3, 7), (4, 6), (5, 5), (6, 4)):
         run.scen("MC_Huffman", {"NSym": n, "Depth": d + (1 if run.thorough else 0), "MaxCount": 1000}, invariants=("Inv", "Export"),
                  workers=8, name=f"MC_Huffman N={n}")
+    # capacity on the model (small counters): refusal exactly when the root weight reaches MaxCount, tree unchanged
+    for n, d, mc in ((2, 8, 6), (3, 7, 7), (4, 6, 8)):
+        run.scen("MC_Huffman", {"NSym": n, "Depth": d, "MaxCount": mc}, invariants=("Inv", "Export"), workers=8, own=lambda m: False,
+                 name=f"MC_Huffman N={n} MaxCount={mc} (model-level capacity; the code's counters are 16 bits wide)")
+    # pipeline V at the real size: histories of the 314-symbol tree up to and across the 65221-update capacity
+    exe = run.harness("huff_rec")
+    pats = [("single", 65300), ("random", 65400)] + ([("roundrobin", 65300), ("sawtooth", 65300), ("random", 30000)] if run.thorough else [])
+    from concurrent.futures import ThreadPoolExecutor
+
+    def one(ps):
+        pat, steps = ps
+        log = os.path.join(vlib.scratch(), f"huff_{pat}_{steps}.ndjson")
+        with open(log, "w") as f:
+            f.write(json.dumps({"e": "Reset", "scenario": f"{pat} x {steps}"}) + "\n")
+            f.flush()
+            p = subprocess.run(["timeout", "600", exe, "--pattern", pat, "--steps", str(steps), "--table-every", "4096", "--seed", str(vlib.SEED)], stdout=f, stderr=subprocess.PIPE, text=True)
+        crashed = p.returncode != 0
+        return pat, steps, log, crashed, p.stderr[-600:]
+    with ThreadPoolExecutor(max_workers=4) as ex:
+        recs = list(ex.map(one, pats))
+    for pat, steps, log, crashed, err in recs:
+        if crashed:
+            run.mismatches.append(dict(site=f"C15.history/{pat}", kind=vlib.classify_crash(err, 1), detail=f"recorder died on pattern {pat}: {err[-300:]}"))
+        v = validate(run, "Trace_Huffman", log, f"C15.history/{pat}", constants={"NSym": 314, "MaxCount": 65535}, what="update history")
+    run.sample({"history": "single x 65300", "events": "Upd(x, ok, path) per update, Table(paths of all symbols) every 4096 updates"})
 
 
 # ======================================================================================================
@@ -152,6 +213,8 @@ def c07(run):
 
 def c08(run):
     run.scen("MC_Bmp", {"MaxWidth": 70 if run.thorough else 40}, own=by_prefix("bmp_", "scenario"))
+    # whatever the reader accepts among the faulted images of the C11 fault model must satisfy the post-conditions C08 states
+    run.scen("MC_ImageFault", {}, small_heap=True, max_crashes=300, own=lambda m: "/postcondition" in m["site"], name="MC_ImageFault (post-conditions of accepted bitmaps)")
 
 
 def c09(run):
@@ -163,7 +226,7 @@ def c10(run):
 
 
 def c11(run):
-    run.scen("MC_ImageFault", {}, small_heap=True, max_crashes=300)
+    run.scen("MC_ImageFault", {}, small_heap=True, max_crashes=300, own=lambda m: "/postcondition" not in m["site"])
 
 
 # ======================================================================================================
@@ -252,6 +315,25 @@ def c14(run):
         run.steps += res["summary"].get("steps", 0)
         run.add_mismatches(res["mismatches"])
         run.part(f"StreamWriter walk {machine} N={n}", walks=res["summary"].get("walks", 0), steps=res["summary"].get("steps", 0), depth=depth)
+
+
+    # (c) size-prefixed writes refuse what does not fit and are inverted by the typed reads
+    run.scen("MC_Limits", {}, own=by_prefix("prefixed_write", "scenario"), name="MC_Limits (size-prefixed containers)")
+    # (d) the copy loop: TLC checks termination and dest = src[start..len) on the loop as the code structures it, exports every behaviour
+    g = vlib.generate("CopyLoop", {"MaxLen": 9 if run.thorough else 7, "MaxChunk": 4}, invariants=("PosInBounds", "CopiesExactlyTheRest", "OnlySourceBytes", "ReadCount", "Export"),
+                      properties=("Terminates",), workers=4)
+    run.add_model(g)
+    run.sample(g["records"][len(g["records"]) // 2])
+    r = vlib.run_scenarios(run.harness("scen"), g["file"], run.pid)
+    run.traces += r["scenarios"]; run.steps += r["steps"]; run.add_mismatches(r["mismatches"])
+    run.part("CopyLoop (all lengths x chunk sizes x start positions, five backends)", behaviours=g["n"], tlc_states=g["states"])
+    run.scen("MC_CopyBig", {}, name="MC_CopyBig (default 128 KiB chunk)")
+    # (e) the open-flag matrix
+    g = vlib.generate("FileOpen", {}, invariants=("OpenedExists",), properties=("RefusedChangesNothing", "AppendPreserves", "FreshStartsEmpty", "GrowsBySuffix"), workers=4)
+    run.add_model(g)
+    r = vlib.run_scenarios(run.harness("scen"), g["file"], run.pid)
+    run.traces += r["scenarios"]; run.steps += r["steps"]; run.add_mismatches(r["mismatches"])
+    run.part("FileOpen (16 flag combinations x path states x 0..2 writes)", scenarios=g["n"], tlc_states=g["states"])
 
 
 # ======================================================================================================
